@@ -32,8 +32,12 @@ Write(batch) ==
   /\ hist' = Append(hist, [batch |-> batch, enc |-> Encode(mode, batch, tx)])
   /\ UNCHANGED mode
 
+\* Flow-control signals of the transport (protocol.pause_writing / resume_writing): the library does no
+\* buffering of its own - a signal writes nothing, and every later batch is still written at once and in order.
+FlowSignal == UNCHANGED vars
+
 Batches == UNION {[1..k -> Packets] : k \in 1..MaxBatch}
-Next == Len(wire) < MaxWrites /\ \E b \in Batches : Write(b)
+Next == (Len(wire) < MaxWrites /\ \E b \in Batches : Write(b)) \/ FlowSignal
 Spec == Init /\ [][Next]_vars
 
 \* nonces over the whole session are 0, 1, 2, ... without gap or repetition
